@@ -3,6 +3,8 @@ package vsim
 import (
 	"fmt"
 	"math/big"
+	"os"
+	"path/filepath"
 	"sort"
 	"strings"
 )
@@ -13,9 +15,39 @@ type Design struct {
 	order []string
 }
 
+// NewDesign returns an empty design to be filled with Add.
+func NewDesign() *Design { return &Design{mods: map[string]*Module{}} }
+
+// LoadDir parses every *.v file of a directory in name order, skipping the
+// base names listed in exclude (for instance "bondmachine_tb.v").
+func LoadDir(dir string, exclude ...string) (*Design, error) {
+	files, err := filepath.Glob(filepath.Join(dir, "*.v"))
+	if err != nil {
+		return nil, err
+	}
+	sort.Strings(files)
+	d := NewDesign()
+next:
+	for _, f := range files {
+		for _, x := range exclude {
+			if filepath.Base(f) == x {
+				continue next
+			}
+		}
+		b, err := os.ReadFile(f)
+		if err != nil {
+			return nil, err
+		}
+		if err := d.Add(filepath.Base(f), string(b)); err != nil {
+			return nil, err
+		}
+	}
+	return d, nil
+}
+
 // Parse parses one source text, which may hold several modules.
 func Parse(name, src string) (*Design, error) {
-	d := &Design{mods: map[string]*Module{}}
+	d := NewDesign()
 	if err := d.Add(name, src); err != nil {
 		return nil, err
 	}
